@@ -24,34 +24,25 @@ def finite_refute(hyps, goal, axioms=(), sizes=(2, 3, 4), timeout_ms=10000, sort
         elems = " ".join(f"({sort_name}!u{i})" for i in range(n))
         txt = smt.replace(f"(declare-sort {sort_name} 0)", f"(declare-datatypes (({sort_name} 0)) (({elems})))")
         txt = txt.replace("(check-sat)", "")
-        ctx = z3.Context()
+        # decided by the command-line binary under a hard wall-clock limit (z3 handles quantifiers over the finite
+        # enumeration by MBQI; in-process calls were seen to overrun their timeout)
+        import subprocess, tempfile, os
+        secs = max(1, int(timeout_ms / 1000))
+        with tempfile.NamedTemporaryFile("w", suffix=".smt2", delete=False, dir=os.environ.get("TMPDIR", "/tmp")) as f:
+            f.write(txt + "\n(check-sat)\n(get-model)\n")
+            path = f.name
         try:
-            fs = z3.parse_smt2_string(txt, ctx=ctx)
-        except z3.Z3Exception as e:
-            import os
-            if os.environ.get("PYVC_DEBUG"):
-                print("finite_refute: parse error", str(e)[:500])
-                open("/tmp/finite_dbg.smt2", "w").write(txt)
-            return None
-        s2 = z3.Solver(ctx=ctx)
-        s2.set("timeout", timeout_ms)
-        try:
-            srt = None
-            for f in fs:
-                srt = _find_sort(f, sort_name)
-                if srt is not None:
-                    break
-            if srt is not None:
-                consts = [srt.constructor(i)() for i in range(srt.num_constructors())]
-                cache = {}
-                fs = [expand(f, srt, consts, cache) for f in fs]
-        except z3.Z3Exception:
-            pass
-        s2.add(fs)
-        r = s2.check()
-        if r == z3.sat:
-            m = s2.model()
-            return model_lines(m), m, ctx, n
+            p = subprocess.run(["z3-new", f"-T:{secs}", path], capture_output=True, text=True, timeout=secs + 5)
+            out = p.stdout.strip()
+        except Exception:  # noqa
+            out = "unknown"
+        finally:
+            try:
+                os.unlink(path)
+            except OSError:
+                pass
+        if out.startswith("sat"):
+            return out[3:].strip()[:6000], None, None, n
     return None
 
 
